@@ -181,7 +181,9 @@ func c03Exec(r *vf.Run, cfg c03Cfg, c *vf.Chooser) (keys, whats []string) {
 	xport := map[int]int{} // txn -> absolute content offset at which the transport fails
 	xportCls := map[int]int{}
 	stdM := stdScriptM(c)
-	std := func(s *refsmtp.Session, ev *refsmtp.Event, def refsmtp.Action) refsmtp.Action { return stdM(s, ev, def) }
+	std := func(s *refsmtp.Session, ev *refsmtp.Event, def refsmtp.Action) refsmtp.Action {
+		return stdM(s, ev, def)
+	}
 	sess.Script = func(s *refsmtp.Session, ev *refsmtp.Event, def refsmtp.Action) refsmtp.Action {
 		switch ev.Verb {
 		case "GREETING", "EHLO", "HELO", "QUIT":
